@@ -35,6 +35,9 @@ if TYPE_CHECKING:
     from ..scenario.config.platform_config import PlatformConfig
 
 
+_EVENT_TIME_NOISE_SEC = 1.0e-3
+"""``float``: largest date conversion / rounding error of an event time, sec."""
+
 _EVENT_TIME_NUDGE_SEC = 1.0e-6
 """``float``: offset into a step given to an impulse whose time coincides with the step's start, sec."""
 
@@ -152,7 +155,13 @@ class Agent(metaclass=ABCMeta):
         # [NOTE]: An impulse is handed over for the step that is about to be propagated. If date
         #   conversion noise puts its time on (or before) the current time, it would be pruned as
         #   "already in the past" without ever being applied: keep it just inside the step.
-        if isinstance(event, ScheduledImpulse) and not self._time < event.time:
+        #   An impulse that lies further back (e.g. an impulse event configured with a duration, which is handed
+        #   over again in later steps) really is in the past and stays where it is.
+        if (
+            isinstance(event, ScheduledImpulse)
+            and not self._time < event.time
+            and self._time - event.time < _EVENT_TIME_NOISE_SEC
+        ):
             event.time = type(event.time)(self._time + _EVENT_TIME_NUDGE_SEC)
         self.propagate_event_queue.append(event)
 
